@@ -162,7 +162,16 @@ theorem arrayGet_inert {arr : List Val} (harr : ∀ v ∈ arr, BoolV v) (item : 
     exact Inert.bind (arrayIxs_inert it _) (fun ixs _ => linComb_inert ixs arr)
   all_goals exact Inert.tyErr
 
-theorem arraySet_inert {arr : List Val} (harr : ∀ v ∈ arr, BoolV v) (item : Val) {v : Val} (hv : BoolV v) :
+/-- the operand condition of `arr[i] = v` with a SECRET index: every element is replaced by
+`if_then_else(i == k, v, arr[k])`, so `v` and every element must pass the length check of the
+selection (`selOk`: public structure; scalars always do) -/
+def asetOk (arr : List Val) (item v : Val) : Bool :=
+  match item with
+  | .lc _ => arr.all (fun x => selOk v x)
+  | _ => true
+
+theorem arraySet_inert {arr : List Val} (harr : ∀ v ∈ arr, BoolV v) (item : Val) {v : Val} (hv : BoolV v)
+    (hok : asetOk arr item v = true) :
     Inert true p res (fun rs => ∀ r ∈ rs, BoolV r) (arraySet arr item v) := by
   unfold arraySet
   cases item
@@ -179,11 +188,12 @@ theorem arraySet_inert {arr : List Val} (harr : ∀ v ∈ arr, BoolV v) (item : 
   case lc it =>
     dsimp only
     refine Inert.bind (arrayIxs_inert it _) (fun ixs hixs => ?_)
-    refine mapM'_inert (A := fun (cv : LinComb × Val) => (cv.1.value = 0 ∨ cv.1.value = 1) ∧ BoolV cv.2) (B := BoolV)
-      (fun cv hcv => ifThenElse_inert false rfl (BoolV_lcb.mpr hcv.1) hv hcv.2) _ ?_
+    simp only [asetOk, List.all_eq_true] at hok
+    refine mapM'_inert (A := fun (cv : LinComb × Val) => (cv.1.value = 0 ∨ cv.1.value = 1) ∧ BoolV cv.2 ∧ selOk v cv.2 = true) (B := BoolV)
+      (fun cv hcv => ifThenElse_inert false rfl (BoolV_lcb.mpr hcv.1) hv hcv.2.1 hcv.2.2) _ ?_
     intro cv hcv
     obtain ⟨h1, h2⟩ := List.of_mem_zip hcv
-    exact ⟨hixs _ h1, harr _ h2⟩
+    exact ⟨hixs _ h1, harr _ h2, hok _ h2⟩
   all_goals exact Inert.tyErr
 
 end Pysnark
